@@ -291,21 +291,6 @@ theorem assigned_none_of (inp : TIn) (obs : List Obs)
   | bcHave i rep => exact absurd rfl (h4 i rep)
   | _ => rfl
 
-theorem cmO_npr (s : HState) (i : Bool) (rd : ReqData) : cmO (newPieceRequest s i rd).2 = [] := by
-  unfold newPieceRequest sendRequest
-  simp only
-  cases i <;> repeat' (first | split | rfl)
-
-theorem cmO_pfr (s : HState) (rep : Rep) (s' : HState) (o : List HOut) (b : Bool)
-    (h : pieceFinishReply s rep = some (s', o, b)) : cmO o = [] := by
-  unfold pieceFinishReply at h
-  split at h
-  · simp only [Option.some.injEq, Prod.mk.injEq] at h; rw [← h.2.1]; exact cmO_npr s false _
-  · cases h; rfl
-  · cases h; rfl
-  · cases h; rfl
-  · cases h
-
 theorem step01_sound (sha1 : Bytes → Bytes) (st : M01) (s : HState) (inp : TIn) (s' : HState) (o : List HOut)
     (e : Option Bool) (hR : R01 st s) (h : tstep sha1 s inp = some (s', o, e)) :
     ∃ st', step01 st (inp, o.filterMap (obsOf sha1), e) = some st' ∧ R01 st' s' := by
